@@ -74,6 +74,22 @@ theorem mstep_inv (s s' : MSt) (e : MEv) (h : MInv s) (hs : mstep s e = some s')
       obtain ⟨ha, hb, _, _, _⟩ := removeLive_inv _ h1
       exact ⟨fun f hf => Or.inl (ha f hf), fun _ => hb, by simp⟩
     · cases hs
+  | readDrainFail n e =>
+    simp only [mstep] at hs
+    split at hs
+    · rename_i hp
+      injection hs with hs; subst hs
+      have hnf := h.noForm (Or.inl hp)
+      refine ⟨?_, by simp, by simp⟩
+      intro f hf
+      simp only [List.mem_filter, List.mem_append, List.mem_replicate, decide_eq_true_eq] at hf
+      obtain ⟨hmem, hne⟩ := hf
+      rcases hmem with hmem | ⟨_, hmem⟩
+      · rcases h.owned f hmem with hd | ⟨ht, _⟩
+        · exact Or.inl hd
+        · rw [hnf] at ht; cases ht
+      · exact absurd hmem hne
+    · cases hs
   | eof =>
     simp only [mstep] at hs
     split at hs
